@@ -109,6 +109,10 @@ func main() {
 		}
 		mu.Unlock()
 		for _, v := range viols {
+			if v[0] == "spurious-failure" && strings.Contains(v[1], "context deadline exceeded") {
+				r.Inconclusive(j.name + ": " + v[1]) // the handler's own 3 s context ran out: machine stalled
+				continue
+			}
 			r.Violation(v[0], j.name, v[1], d)
 		}
 	})
